@@ -27,15 +27,16 @@ theorem groupAggFns_user_wins (fns : List Fn) (targets dataCols : List String)
     rw [hsplit]; exact mi_lookupLast_split pre post n s hlast
   exact (mi_findFn?_grp h n).1 s (mi_specOfName_user hl)
 
-/-- **The automatic group sum.** If no user spec is named `n`, `n` is an argument of some function
-or a requested target, `n` is not itself a function, `n` ends in a group suffix (group id `gid`)
+/-- **The automatic group sum.** If no user spec is named `n`, `n` is an argument of some function,
+a requested target or the source column of a user aggregation specification, `n` is not itself a
+function, `n` ends in a group suffix (group id `gid`)
 and `n` without its group suffixes is a function or a data column, then the aggregation function
 named `n` is the SUM of that column over `gid`. -/
 theorem groupAggFns_automatic (fns : List Fn) (targets dataCols : List String)
     (userSpecs : List (String × GroupSpec)) (grp : List Fn)
     (h : groupAggFns fns targets dataCols userSpecs = .ok grp) (n gid : String)
     (hno : ∀ e ∈ userSpecs, e.1 ≠ n)
-    (hpot : n ∈ fns.flatMap (·.args) ∨ n ∈ targets)
+    (hpot : n ∈ fns.flatMap (·.args) ∨ n ∈ targets ∨ ∃ e ∈ userSpecs, e.2.source = some n)
     (hnf : hasFn fns n = false) (hgid : groupIdOf n = some gid)
     (hsrc : hasFn fns (removeGroupSuffix n) = true ∨ removeGroupSuffix n ∈ dataCols) :
     findFn? grp n = some
@@ -44,7 +45,7 @@ theorem groupAggFns_automatic (fns : List Fn) (targets dataCols : List String)
         kind := .groupAgg .sum (some (removeGroupSuffix n)) gid } := by
   have hl := (mi_lookupLast_none_iff userSpecs n).2 hno
   have hspec := mi_specOfName_auto fns targets dataCols userSpecs n hl
-  rw [if_pos ⟨List.mem_append.2 hpot, (mi_autoOk_iff fns dataCols n).2 ⟨hnf, by rw [hgid]; rfl, hsrc⟩⟩]
+  rw [if_pos ⟨(mi_mem_potential _ _ _ _).2 hpot, (mi_autoOk_iff fns dataCols n).2 ⟨hnf, by rw [hgid]; rfl, hsrc⟩⟩]
     at hspec
   obtain ⟨f, hf, hg⟩ := (mi_findFn?_grp h n).1 _ hspec
   rw [hf, (mi_groupAggFn_sum hgid hg).1]
@@ -58,7 +59,8 @@ theorem groupAggFns_only_if (fns : List Fn) (targets dataCols : List String)
     (∃ pre post s, userSpecs = pre ++ (f.name, s) :: post ∧ (∀ e ∈ post, e.1 ≠ f.name) ∧
       groupAggFn fns f.name s = .ok f) ∨
     ((∀ e ∈ userSpecs, e.1 ≠ f.name) ∧
-      (f.name ∈ fns.flatMap (·.args) ∨ f.name ∈ targets) ∧ hasFn fns f.name = false ∧
+      (f.name ∈ fns.flatMap (·.args) ∨ f.name ∈ targets ∨
+        ∃ e ∈ userSpecs, e.2.source = some f.name) ∧ hasFn fns f.name = false ∧
       (hasFn fns (removeGroupSuffix f.name) = true ∨ removeGroupSuffix f.name ∈ dataCols) ∧
       ∃ gid, groupIdOf f.name = some gid ∧
         f = { name := f.name, args := [removeGroupSuffix f.name, gid],
@@ -81,7 +83,7 @@ theorem groupAggFns_only_if (fns : List Fn) (targets dataCols : List String)
       cases hs
       obtain ⟨hpot, hauto⟩ := hcond
       obtain ⟨hnf, hgid, hsrc⟩ := (mi_autoOk_iff fns dataCols f.name).1 hauto
-      refine ⟨(mi_lookupLast_none_iff _ _).1 hl, List.mem_append.1 hpot, hnf, hsrc, ?_⟩
+      refine ⟨(mi_lookupLast_none_iff _ _).1 hl, (mi_mem_potential _ _ _ _).1 hpot, hnf, hsrc, ?_⟩
       cases hgid' : groupIdOf f.name with
       | none => rw [hgid'] at hgid; cases hgid
       | some gid => exact ⟨gid, rfl, (mi_groupAggFn_sum hgid' hg).1⟩
@@ -226,6 +228,17 @@ example : (∀ e ∈ specs, e.1 ≠ "miete_hh") ∧ "miete_hh" ∈ fns.flatMap (
 example : (∀ e ∈ specs, e.1 ≠ "x_fg") ∧ "x_fg" ∈ ["x_fg", "nope_fg"] ∧
     hasFn fns "x_fg" = false ∧ groupIdOf "x_fg" = some "fg_id" ∧
     removeGroupSuffix "x_fg" ∈ cols := by decide +kernel
+-- the third alternative of the premise: `x_bg` is neither an argument nor a target, but the SOURCE
+-- column of the user spec `mx_hh`; the automatic sum `x_bg` is created for it
+example : (∀ e ∈ specs ++ [("mx_hh", (⟨.max, some "x_bg"⟩ : GroupSpec))], e.1 ≠ "x_bg") ∧
+    "x_bg" ∉ fns.flatMap (·.args) ∧
+    (∃ e ∈ specs ++ [("mx_hh", (⟨.max, some "x_bg"⟩ : GroupSpec))], e.2.source = some "x_bg") ∧
+    hasFn fns "x_bg" = false ∧ groupIdOf "x_bg" = some "bg_id" ∧ removeGroupSuffix "x_bg" ∈ cols := by
+  refine ⟨by decide +kernel, by decide +kernel, ⟨("mx_hh", ⟨.max, some "x_bg"⟩), by simp, rfl⟩,
+    by decide +kernel, by decide +kernel, by decide +kernel⟩
+example : ((groupAggFns fns [] cols (specs ++ [("mx_hh", ⟨.max, some "x_bg"⟩)])).toOption.bind
+      fun grp => (findFn? grp "x_bg").map showFn) = some ("x_bg", ["x", "bg_id"], "sum") := by
+  decide +kernel
 -- `nope_fg` is requested but `nope` is neither a function nor a data column: no function
 example : hasFn fns (removeGroupSuffix "nope_fg") = false ∧ removeGroupSuffix "nope_fg" ∉ cols := by
   decide +kernel
